@@ -107,7 +107,32 @@ def generate():
     need(re.search(r'bool process\(LogMessage &lmsg\) override \{ lmsg\.updateAttributes\(attributes\(lmsg\)\); return true; \}', ah),
          'AttrHandler::process = lmsg.updateAttributes(attributes(lmsg))')
 
-    out = HDR % 'src/qtlogger/formatters/sentryformatter.cpp, sentryformatter.h'
+    # front end (round 8): SimplePipeline::formatToSentry(sdkName, sdkVersion) - which object it appends and which of its
+    # parameters it hands on to the SentryFormatter constructor, in which order; the default arguments of its declaration
+    sp = strip_comments(rd('simplepipeline.cpp'))
+    need(re.search(r'SimplePipeline &SimplePipeline::formatToSentry\(const QString &sdkName, const QString &sdkVersion\)', sp),
+         'SimplePipeline::formatToSentry(const QString &sdkName, const QString &sdkVersion)')
+    fb = re.sub(r'\s+', ' ', fn_body(sp, 'SimplePipeline::formatToSentry')).strip()
+    fm2 = re.fullmatch(r'append\(SentryFormatterPtr::create\(([^()]*)\)\); return \*this;', fb)
+    if fm2:
+        fargs = [a.strip() for a in fm2.group(1).split(',')] if fm2.group(1).strip() else []
+        for a in fargs:
+            if a not in ('sdkName', 'sdkVersion'):
+                raise AnchorError('ANCHOR NOT FOUND: SimplePipeline::formatToSentry: the constructor arguments are the parameters sdkName, sdkVersion themselves (got %r)' % a)
+        if len(fargs) > 2:
+            raise AnchorError('ANCHOR NOT FOUND: SimplePipeline::formatToSentry: at most two constructor arguments (got %r)' % fm2.group(1))
+        front_obj = 'FOFresh [%s]' % '; '.join({'sdkName': 'FAName', 'sdkVersion': 'FAVersion'}[a] for a in fargs)
+    elif re.fullmatch(r'append\(SentryFormatter::instance\(\)\); return \*this;', fb):
+        front_obj = 'FOInstance'
+    else:
+        raise AnchorError('ANCHOR NOT FOUND: SimplePipeline::formatToSentry: append(SentryFormatterPtr::create(sdkName, sdkVersion)); return *this;  (got %r)' % fb[:200])
+    sh = re.sub(r'\s+', ' ', strip_comments(rd('simplepipeline.h')))
+    fd = need(re.search(r'SimplePipeline &formatToSentry\(const QString &sdkName = QStringLiteral\("([^"\\]*)"\), const QString &sdkVersion = QStringLiteral\("([^"\\]*)"\)\);', sh),
+              'simplepipeline.h: formatToSentry(const QString &sdkName = QStringLiteral("..."), const QString &sdkVersion = QStringLiteral("..."))')
+    need(re.search(r'static SentryFormatterPtr instance\(\) \{ static const auto (\w+) = SentryFormatterPtr::create\(\); return \1; \}', h),
+         'SentryFormatter::instance(): function-local static created with SentryFormatterPtr::create() (the default arguments)')
+
+    out = HDR % 'src/qtlogger/formatters/sentryformatter.cpp, sentryformatter.h, simplepipeline.cpp, simplepipeline.h'
     out += 'Require Import List NArith.\nImport ListNotations.\nRequire Import QtlVerif.JsonDefs QtlVerif.SentryDefs.\nLocal Open Scope N_scope.\n'
     out += 'Definition src_sentry_cfg : sentry_cfg := {|\n'
     out += '  level_names := [%s];\n' % '; '.join('(%d, %s)' % (QTMSG[t], coq_str(n)) for t, n in cases)
@@ -117,4 +142,6 @@ def generate():
     out += '  fp_cut := %d; fp_formatted := %s; msg_formatted := %s;\n' % (int(fm.group(2)), 'true' if fm.group(1) == 'formattedMessage' else 'false', msg_fmt)
     out += '  logger_unless_empty := %s; logger_unless_default := %s;\n' % (l_empty, l_default)
     out += '  sdk_name := %s; sdk_version := %s |}.\n' % (coq_str(hm.group(1)), coq_str(hm.group(2)))
+    out += 'Definition src_sentry_front : sentry_front := {| front_object := %s;\n' % front_obj
+    out += '  front_default_name := %s; front_default_version := %s |}.\n' % (coq_str(fd.group(1)), coq_str(fd.group(2)))
     return {'SrcSentry.v': out}
